@@ -505,7 +505,14 @@ func (m *Mux) serveHTTP(w http.ResponseWriter, r *http.Request) error {
 	// Handle stats.
 	// Try to send Trailers, might not be respected. Done whether or not a
 	// stats handler is installed: stats must not change the response.
-	setOutgoingHeader(w.Header(), stream.trailer)
+	// A header of the same name keeps its values.
+	tr := make(http.Header, len(stream.trailer))
+	setOutgoingHeader(tr, stream.trailer)
+	for k, vs := range tr {
+		if _, ok := w.Header()[k]; !ok {
+			w.Header()[k] = vs
+		}
+	}
 	if sh := m.opts.statsHandler; sh != nil {
 		endTime := time.Now()
 
